@@ -1,6 +1,7 @@
 package main
 
 import (
+	"crypto/sha1"
 	"fmt"
 	"go/types"
 	"os"
@@ -25,8 +26,41 @@ func overlayFiles() map[string]string {
 
 func goEnv() []string {
 	env := os.Environ()
-	env = append(env, "GOFLAGS=-mod=mod", "GOPROXY=off", "GOSUMDB=off", "GOTOOLCHAIN=local", "CGO_ENABLED=0")
+	flags := "-mod=mod"
+	if repoDir != "/repo" {
+		flags += " -modfile=" + altModFile()
+	}
+	env = append(env, "GOFLAGS="+flags, "GOPROXY=off", "GOSUMDB=off", "GOTOOLCHAIN=local", "CGO_ENABLED=0")
 	return env
+}
+
+// altModFile writes a copy of the harness go.mod whose replace directive
+// points at $VERIF_REPO (with the matching go.sum next to it).
+func altModFile() string {
+	os.MkdirAll(workDir, 0o755)
+	h := fmt.Sprintf("%x", sha1.Sum([]byte(repoDir)))[:10]
+	mod := filepath.Join(workDir, "alt-"+h+".mod")
+	b, err := os.ReadFile(filepath.Join(harnessDir, "go.mod"))
+	if err != nil {
+		return mod
+	}
+	out := strings.Replace(string(b), "=> /repo", "=> "+repoDir, 1)
+	if old, err := os.ReadFile(mod); err != nil || string(old) != out {
+		tmp := mod + fmt.Sprintf(".tmp%d", os.Getpid())
+		if os.WriteFile(tmp, []byte(out), 0o644) == nil {
+			os.Rename(tmp, mod)
+		}
+	}
+	if sum, err := os.ReadFile(filepath.Join(repoDir, "go.sum")); err == nil {
+		sumFile := strings.TrimSuffix(mod, ".mod") + ".sum"
+		if old, err := os.ReadFile(sumFile); err != nil || string(old) != string(sum) {
+			tmp := sumFile + fmt.Sprintf(".tmp%d", os.Getpid())
+			if os.WriteFile(tmp, sum, 0o644) == nil {
+				os.Rename(tmp, sumFile)
+			}
+		}
+	}
+	return mod
 }
 
 // syncGoSum keeps the harness module's go.sum equal to the repository's.
